@@ -127,6 +127,16 @@ let handle (line : string) : string =
   | "c18air" :: kind :: had :: ok :: _ ->
     let k = match kind with "commits" -> M.KCommits | "signing" -> M.KSigning | _ -> M.KLater in
     "c18air " ^ (match M.aclass_of k (had = "1") (ok = "1") with M.AOk -> "ok" | M.AErrorResult -> "error-result" | M.ARejected -> "rejected")
+  | "airreinit" :: outer :: n :: rest ->
+    (* airreinit <outer> <n> {kind round ok}* : a reinit operation fed to a fresh machine *)
+    let nat s = M.N.to_nat (n_of_int (int_of_string s)) in
+    let a = Array.of_list rest in
+    let ops = List.init (int_of_string n) (fun k ->
+        let kind = match a.(3 * k) with "commits" -> M.IkCommits | "deals" -> M.IkDeals | "responses" -> M.IkResponses | _ -> M.IkMaster in
+        { M.ri_kind = kind; ri_round = nat a.(3 * k + 1); ri_ok = (a.(3 * k + 2) = "1") }) in
+    let (m, ok) = M.handle_reinit (nat outer) M.fresh_rmach ops in
+    let shares = List.sort compare (List.map (fun r -> int_of_n (M.N.of_nat r)) m.M.rm_shares) in
+    "airreinit " ^ (if ok then "processed" else "refused") ^ " shares=" ^ String.concat "," (List.map string_of_int shares)
   | "c04lock" :: _ -> "c04lock waits=" ^ (if M.tick_waits_during_command then "true" else "false")
   | "c04gap" :: _ -> "c04gap saved-without-password=" ^ (if M.gap_saves_without_password then "true" else "false")
   | "c04rounds" :: t1 :: m1 :: t2 :: m2 :: _ ->
